@@ -13,6 +13,7 @@ import (
 	"context"
 	"fmt"
 	"math/rand"
+	"strings"
 	"sync"
 	"sync/atomic"
 	"testing"
@@ -69,6 +70,14 @@ func newHarness(ownMID int) *harness {
 			b := h.behav[mid]
 			h.mu.Unlock()
 			body, _ := r.ReadBody()
+			if strings.HasSuffix(b, "-owned") {
+				// the handler takes the request over and is done with it before it returns (as a handler that passes the
+				// request to a worker which finishes first): what the reply looks like must not depend on the request
+				// object any more
+				b = strings.TrimSuffix(b, "-owned")
+				r.Hijack()
+				w.Conn().ReleaseMessage(r)
+			}
 			switch b {
 			case "piggy":
 				_ = w.SetResponse(codes.Content, message.TextPlain, bytes.NewReader(append([]byte("re:"), body...)), message.Option{ID: message.ETag, Value: []byte{1, 2, 3}})
@@ -176,7 +185,8 @@ func runCase(rec *vr.Rec, c dcase, rnd *rand.Rand) {
 	tok := []byte{0xd0, byte(mid >> 8), byte(mid), byte(c.Copies)}
 	h.behav[mid] = c.Behav
 	dg := request(typ, mid, tok, "body")
-	expectReply := con || c.Behav == "piggy" || c.Behav == "nested"
+	behav := strings.TrimSuffix(c.Behav, "-owned")
+	expectReply := con || behav == "piggy" || behav == "nested"
 	wantReplies := func(n int) bool {
 		return sim.WaitFor(20*time.Second, func() bool { return len(h.repliesFor(con, mid, tok)) >= n })
 	}
@@ -300,7 +310,7 @@ func runCase(rec *vr.Rec, c dcase, rnd *rand.Rand) {
 		}
 		if con {
 			bare := reps[0].Code == 0
-			if bare != (c.Behav == "none" || c.Behav == "separate") {
+			if bare != (behav == "none" || behav == "separate") {
 				rec.Violation("C05/first-reply-kind", fmt.Sprintf("first reply code %d for handler behaviour %s", reps[0].Code, c.Behav), c)
 				return
 			}
@@ -390,7 +400,7 @@ func responseDuplicates(rec *vr.Rec, n int) {
 }
 
 func TestRun(t *testing.T) {
-	rec := vr.New("C05", "cases = request type {CON, NON} x handler behaviour {piggybacked response, no response, separate response, response after a nested blocking request} x injection {sequential copies, copies arriving while the first handler still runs, 2..8 goroutines at a barrier} x copies 2..8 x message IDs {0, 1, 65535, around the connection's own next outgoing IDs, PRNG} x interleaved other IDs x lifetime boundary {none, sweep at t0+247s-1s, sweep at t0+247s+1s}; plus duplicated separate responses from the peer. Distinct = distinct case tuples.")
+	rec := vr.New("C05", "cases = request type {CON, NON} x handler behaviour {piggybacked response, no response, separate response, response after a nested blocking request, piggybacked / no response from a handler that took the request over and released it before returning} x injection {sequential copies, copies arriving while the first handler still runs, 2..8 goroutines at a barrier} x copies 2..8 x message IDs {0, 1, 65535, around the connection's own next outgoing IDs, PRNG} x interleaved other IDs x lifetime boundary {none, sweep at t0+247s-1s, sweep at t0+247s+1s}; plus duplicated separate responses from the peer. Distinct = distinct case tuples.")
 	defer rec.Flush(true)
 	seed := vr.Seed()
 	rnd := rand.New(rand.NewSource(seed))
@@ -398,7 +408,7 @@ func TestRun(t *testing.T) {
 	own := 30000
 	mids := []int{0, 1, 65535, own, own + 1, own + 2, own - 1}
 	for _, typ := range []string{"CON", "NON"} {
-		for _, b := range []string{"piggy", "none", "separate", "nested"} {
+		for _, b := range []string{"piggy", "none", "separate", "nested", "piggy-owned", "none-owned"} {
 			for _, inj := range []string{"sequential", "during-handler", "barrier"} {
 				if inj == "during-handler" && b != "nested" {
 					continue
